@@ -1,0 +1,106 @@
+//go:build verif
+
+// Contracts for govc (/verif): C04 "A one-time output key is bound to at most one transaction" (storage part).
+// Comment-only file. Key space, T-KV vocabulary and helpers: zz_contracts_c03_verif.go and /verif/govc/trusted/badger.spec.
+
+package storage
+
+//@ -- GhostOf: id of the value stored under GHOST/<key> (0 = unbound); a binding is the raw 32 bytes of the owner's hash,
+//@ -- so "bound to tx" is `== kvval(tx)` (kvval is injective: common.HashOfVal).
+//@ spec GhostOf(t badger.Txn, k crypto.Key) mathint = badger.kvget(t, GK(k))
+//@ spec DbGhostOf(d badger.DB, k crypto.Key) mathint = badger.dbget(d, GK(k))
+//@ -- the three hard-coded historical transactions that may reuse a key on the finalization path (taken verbatim from lockGhostKey)
+//@ spec GhostException(tx crypto.Hash) bool = tx.String() == "c63b6373652def5999c1d951fcb8f064db67b7d18565847b921b21639e15dddd" ||
+//@     tx.String() == "60deaf2471bb0b6481efe9080d8852b020ab2941e7faae21989d2404f34284ee" || tx.String() == "a558b1efbe27eb6a6f902fd97d4b7e2e3099e6edde1fe6e8e41204e0685fe426"
+
+//@ func lockGhostKey
+//@   property C04
+//@   requires txn != nil && ghost != nil
+//@   modifies *txn
+//@   ensures [bound] err == nil ==> GhostOf(*txn, *ghost) == kvval(tx) || (fork && GhostException(tx) && GhostOf(*txn, *ghost) != 0)
+//@   ensures [fresh-bind] err == nil && old(GhostOf(*txn, *ghost)) == 0 ==> GhostOf(*txn, *ghost) == kvval(tx)
+//@   ensures [no-overwrite] old(GhostOf(*txn, *ghost)) != 0 ==> *txn == old(*txn)
+//@   ensures [foreign-refused] let G == old(GhostOf(*txn, *ghost)) in G != 0 && G != kvval(tx) && !(fork && GhostException(tx)) ==> err != nil
+//@   ensures [frame] forall k mathint :: {badger.kvget(*txn, k)} k != GK(*ghost) ==> badger.kvget(*txn, k) == old(badger.kvget(*txn, k))
+//@   ensures [fail] err != nil ==> *txn == old(*txn)
+
+//@ -- GhostStep(a, b, tx): only GHOST entries change, and only from "unbound" to "bound to tx": an existing binding is never overwritten.
+//@ spec GhostStep(a badger.Txn, b badger.Txn, tx crypto.Hash) bool =
+//@     (forall k mathint :: {badger.kvget(b, k)} keykind(k) != 2 ==> badger.kvget(b, k) == badger.kvget(a, k)) &&
+//@     (forall k mathint :: {badger.kvget(b, k)} keykind(k) == 2 && badger.kvget(b, k) != badger.kvget(a, k) ==> badger.kvget(a, k) == 0 && badger.kvget(b, k) == kvval(tx))
+//@ spec DbGhostStep(a badger.DB, b badger.DB, tx crypto.Hash) bool =
+//@     (forall k mathint :: {badger.dbget(b, k)} keykind(k) != 2 ==> badger.dbget(b, k) == badger.dbget(a, k)) &&
+//@     (forall k mathint :: {badger.dbget(b, k)} keykind(k) == 2 && badger.dbget(b, k) != badger.dbget(a, k) ==> badger.dbget(a, k) == 0 && badger.dbget(b, k) == kvval(tx))
+//@ -- KeysOK: the key pointers are non-nil and were allocated before the call (!fresh: a typing fact about every pointer
+//@ -- stored in the caller's heap; needed because the engine has no global "stored pointers are older than the watermark" invariant)
+//@ spec KeysOK(keys []*crypto.Key) bool = forall i int :: {keys[i]} 0 <= i && i < len(keys) ==> keys[i] != nil && !fresh(keys[i])
+
+//@ func (s *BadgerStore) LockGhostKeys$1
+//@   property C04
+//@   requires txn != nil && iscell(txn) && KeysOK(keys)
+//@   modifies *txn
+//@   ensures [distinct] err == nil ==> forall a, b int :: 0 <= a && a < b && b < len(keys) ==> *keys[a] != *keys[b]
+//@   ensures [bound] err == nil ==> forall i int :: {keys[i]} 0 <= i && i < len(keys) ==> GhostOf(*txn, *keys[i]) == kvval(tx) || (fork && GhostException(tx) && GhostOf(*txn, *keys[i]) != 0)
+//@   ensures [step] GhostStep(old(*txn), *txn, tx)
+//@   loop 0 invariant [seen] forall j int :: 0 <= j && j <= rangeindex ==> has(filter, *keys[j]) && filter[*keys[j]]
+//@   loop 0 invariant [distinct] forall a, b int :: 0 <= a && a < b && b <= rangeindex ==> *keys[a] != *keys[b]
+//@   loop 0 invariant [bound] forall j int :: 0 <= j && j <= rangeindex ==> GhostOf(*txn, *keys[j]) == kvval(tx) || (fork && GhostException(tx) && GhostOf(*txn, *keys[j]) != 0)
+//@   loop 0 invariant [step] GhostStep(old(*txn), *txn, tx)
+
+//@ -- LockGhostKeys: all keys or nothing; a key repeated in the list is rejected; a key bound to another transaction is rejected
+//@ -- (except for the three historical transactions on the finalization path, which leave the old binding in place).
+//@ func (s *BadgerStore) LockGhostKeys
+//@   property C04
+//@   lockset mutex -- syntactic: s.mutex.Lock() + deferred Unlock around the single badger Update (not a proof about schedules)
+//@   requires StoreOK(s) && KeysOK(keys)
+//@   modifies *s.snapshotsDB
+//@   ensures [atomic] err != nil ==> *s.snapshotsDB == old(*s.snapshotsDB)
+//@   ensures [distinct] err == nil ==> forall a, b int :: 0 <= a && a < b && b < len(keys) ==> *keys[a] != *keys[b]
+//@   ensures [bound] err == nil ==> forall i int :: {keys[i]} 0 <= i && i < len(keys) ==> DbGhostOf(*s.snapshotsDB, *keys[i]) == kvval(tx) || (fork && GhostException(tx) && DbGhostOf(*s.snapshotsDB, *keys[i]) != 0)
+//@   ensures [step] DbGhostStep(old(*s.snapshotsDB), *s.snapshotsDB, tx)
+//@   ensures [foreign-refused] !(fork && GhostException(tx)) && (exists i int :: 0 <= i && i < len(keys) && old(DbGhostOf(*s.snapshotsDB, *keys[i])) != 0 && old(DbGhostOf(*s.snapshotsDB, *keys[i])) != kvval(tx)) ==> err != nil
+
+//@ -- ═════════ finalization path: writeUTXO relocks the output keys with fork == true ═════════
+//@ -- Frame of the node/custodian/withdrawal writers called at the end of writeUTXO: they only Set keys with the prefixes
+//@ -- NODESTATE…, CUSTODIANUPDATE, WITHDRAWAL (by inspection of their key constructors in badger_node.go,
+//@ -- badger_custodian.go, badger_withdrawal.go), never a GHOST entry. ASSUMED (these functions are not under contract yet).
+//@ assume func writeNodePledge
+//@   modifies *txn
+//@   ensures forall k mathint :: {badger.kvget(*txn, k)} keykind(k) == 2 ==> badger.kvget(*txn, k) == old(badger.kvget(*txn, k))
+//@ assume func writeNodeCancel
+//@   modifies *txn
+//@   ensures forall k mathint :: {badger.kvget(*txn, k)} keykind(k) == 2 ==> badger.kvget(*txn, k) == old(badger.kvget(*txn, k))
+//@ assume func writeNodeAccept
+//@   modifies *txn
+//@   ensures forall k mathint :: {badger.kvget(*txn, k)} keykind(k) == 2 ==> badger.kvget(*txn, k) == old(badger.kvget(*txn, k))
+//@ assume func writeNodeRemove
+//@   modifies *txn
+//@   ensures forall k mathint :: {badger.kvget(*txn, k)} keykind(k) == 2 ==> badger.kvget(*txn, k) == old(badger.kvget(*txn, k))
+//@ assume func writeCustodianNodes
+//@   modifies *txn
+//@   ensures forall k mathint :: {badger.kvget(*txn, k)} keykind(k) == 2 ==> badger.kvget(*txn, k) == old(badger.kvget(*txn, k))
+//@ assume func writeWithdrawalClaim
+//@   modifies *txn
+//@   ensures forall k mathint :: {badger.kvget(*txn, k)} keykind(k) == 2 ==> badger.kvget(*txn, k) == old(badger.kvget(*txn, k))
+
+//@ func writeUTXO
+//@   trustpre PayloadHash   -- its precondition (payload well-formedness) belongs to C06; irrelevant to the ghost-key binding proved here
+//@   property C04
+//@   requires txn != nil && utxo != nil && ver != nil && KeysOK(utxo.Keys)
+//@   requires [index] utxo.Index <= 1024 -- graphUtxoKey; an output index of a decoded transaction
+//@   requires [no-alias] forall i int :: {utxo.Keys[i]} 0 <= i && i < len(utxo.Keys) ==> utxo.Keys[i] != &ver.hash -- typing: a *crypto.Key never points at a crypto.Hash field (the engine keeps all byte arrays in one heap component)
+//@   requires [claim-ref] utxo.Type == common.OutputTypeWithdrawalClaim ==> len(ver.References) >= 1 -- validated withdrawal claim
+//@   modifies *txn, ver.hash, ver.pmbytes -- ver.PayloadHash() caches the hash (withdrawal claim branch)
+//@   ensures [foreign-refused] !GhostException(utxo.Hash) && (exists i int :: 0 <= i && i < len(utxo.Keys) && old(GhostOf(*txn, *utxo.Keys[i])) != 0 && old(GhostOf(*txn, *utxo.Keys[i])) != kvval(utxo.Hash)) ==> err != nil
+//@   ensures [no-overwrite] forall k mathint :: {badger.kvget(*txn, k)} keykind(k) == 2 && badger.kvget(*txn, k) != old(badger.kvget(*txn, k)) ==> old(badger.kvget(*txn, k)) == 0 && badger.kvget(*txn, k) == kvval(utxo.Hash)
+//@   ensures [bound] err == nil ==> forall i int :: {utxo.Keys[i]} 0 <= i && i < len(utxo.Keys) ==> GhostOf(*txn, *utxo.Keys[i]) == kvval(utxo.Hash) || (GhostException(utxo.Hash) && GhostOf(*txn, *utxo.Keys[i]) != 0)
+//@   loop 0 invariant [bound] forall j int :: {utxo.Keys[j]} 0 <= j && j <= rangeindex ==> GhostOf(*txn, *utxo.Keys[j]) == kvval(utxo.Hash) || (GhostException(utxo.Hash) && GhostOf(*txn, *utxo.Keys[j]) != 0)
+//@   loop 0 invariant [step] GhostStep(old(*txn), *txn, utxo.Hash)
+
+//@ -- Observation point: ReadGhostKeyLock returns the committed binding (own read-only transaction, no mutex).
+//@ func (s *BadgerStore) ReadGhostKeyLock
+//@   property C04
+//@   requires s != nil && s.snapshotsDB != nil
+//@   modifies nothing
+//@   ensures [unbound] err == nil && result0 == nil ==> DbGhostOf(*s.snapshotsDB, key) == 0
+//@   ensures [bound] err == nil && result0 != nil ==> DbGhostOf(*s.snapshotsDB, key) != 0 && (badger.vallen(DbGhostOf(*s.snapshotsDB, key)) == 32 ==> kvval(*result0) == DbGhostOf(*s.snapshotsDB, key))
